@@ -463,4 +463,73 @@ def updateSpec (s : State α) (xs : List (List α)) : Core α :=
 
 end Spec
 
+/-! ### Several strategies next to the caller's own parameter objects
+
+A program that keeps several `Strategy` objects alive (multi-start, islands, restarts) and still holds the
+objects it passed to the constructors: the start point, `sigma`, the keyword arguments (`cmatrix`,
+`lambda_`, `mu`, `weights`, learning rates).  The model has value semantics, so the statement "`__init__`
+copies nothing it later mutates, `update` mutates nothing but the attributes of its own `self`" is the
+shape of the functions below: a step addressed to strategy `k` rewrites position `k` of `strats` and
+nothing else.  (On the Python side this is what cma.py:91 `numpy.array(centroid)`, the re-binding
+`self.C = … * self.C + …` of :158 and `self.centroid = numpy.dot(…)` of :136 achieve; the harness stream
+`alias` ties the implementation to it.) -/
+
+/-- what a caller hands to `Strategy(centroid, sigma, **kargs)` and keeps -/
+structure Args (α : Type) where
+  centroid : List α
+  sigma : α
+  o : Over α
+
+/-- the live strategies and the caller's parameter objects -/
+structure World (α : Type) where
+  args : List (Args α)
+  strats : List (State α)
+
+/-- one statement of the caller's program -/
+inductive Step (α K : Type) where
+  /-- `strats[k].update(pop)` -/
+  | update (k : Nat) (pop : List (K × List α))
+  /-- `strats[k].lambda_ = lam; strats[k].computeParams(params)` -/
+  | relambda (k : Nat) (lam : Nat) (o : Over α)
+  /-- the caller overwrites his own parameter object number `i` -/
+  | setArg (i : Nat) (a : Args α)
+  /-- `strats.append(Strategy(args[i].centroid, args[i].sigma, **args[i].kargs))` (also: a restart) -/
+  | spawn (i : Nat)
+
+section World
+variable {α K : Type} [RealLike α] [LT K] [DecidableLT K]
+
+/-- does the step address strategy `j`? -/
+def Step.touches (j : Nat) : Step α K → Bool
+  | .update k _ => k == j
+  | .relambda k _ _ => k == j
+  | .setArg _ _ => false
+  | .spawn _ => false
+
+/-- the effect of a step on the strategy it addresses -/
+def Step.onState (eigh : List (List α) → List α × List (List α)) (argsort : List α → List Nat)
+    (s : State α) : Step α K → State α
+  | .update _ pop => Cma.update eigh argsort s pop
+  | .relambda _ lam o => Cma.relambda s lam o
+  | .setArg _ _ => s
+  | .spawn _ => s
+
+/-- the effect of a step on the whole program state -/
+def Step.apply (eigh : List (List α) → List α × List (List α)) (argsort : List α → List Nat)
+    (w : World α) : Step α K → World α
+  | .update k pop => { w with strats := w.strats.modify k (fun s => Cma.update eigh argsort s pop) }
+  | .relambda k lam o => { w with strats := w.strats.modify k (fun s => Cma.relambda s lam o) }
+  | .setArg i a => { w with args := w.args.set i a }
+  | .spawn i =>
+    match w.args[i]? with
+    | none => w
+    | some a => { w with strats := w.strats ++ [init eigh argsort a.centroid a.sigma a.o] }
+
+/-- a whole program -/
+def runSteps (eigh : List (List α) → List α × List (List α)) (argsort : List α → List Nat)
+    (w : World α) (steps : List (Step α K)) : World α :=
+  steps.foldl (Step.apply eigh argsort) w
+
+end World
+
 end Cma
